@@ -42,6 +42,7 @@ type harnessCfg struct {
 	Thorough   tierCfg  `json:"thorough"`
 	MustCover  []string `json:"must_cover"`
 	NoBlockVio bool     `json:"no_block_violation"`
+	Racer      string   `json:"racer"`
 	Assumes    []string `json:"assumptions"`
 }
 
@@ -272,6 +273,7 @@ func run() int {
 			}
 		}
 		tierVarsByHarness[h.Name] = tc.Vars
+		racerOf[h.Name] = h.Racer
 		cfg := interp.Config{
 			Prog: prog, Pkg: pkg, Harness: h.Name, Jobs: *jobs,
 			MaxSteps: tc.MaxSteps, MaxPaths: tc.MaxPaths, TimeoutMS: tc.TimeoutMS,
@@ -531,6 +533,21 @@ func genTable(pkgDir string) map[string][]byte {
 	sb.WriteString("//go:build verif\n\npackage pfcpiface\n\nvar vHarnesses = map[string]func(){\n")
 	for _, n := range names {
 		fmt.Fprintf(&sb, "\t%q: %s,\n", n, n)
+	}
+	sb.WriteString("}\n\nvar vRacers = map[string]func(){\n")
+	for _, e := range ents {
+		if !strings.HasSuffix(e.Name(), ".go") {
+			continue
+		}
+		b, _ := os.ReadFile(filepath.Join(src, e.Name()))
+		for _, line := range strings.Split(string(b), "\n") {
+			if strings.HasPrefix(line, "func R_") {
+				n := strings.TrimPrefix(line, "func ")
+				if i := strings.IndexByte(n, '('); i > 0 {
+					fmt.Fprintf(&sb, "\t%q: %s,\n", n[:i], n[:i])
+				}
+			}
+		}
 	}
 	sb.WriteString("}\n\nvar vVars = map[string]*int{\n")
 	for _, e := range ents {
